@@ -50,3 +50,56 @@ def _(data: "bytes", key: "bytes"):
     ensures(xor_post(data, key, result))
     returns("bytes")
     ghost(entry=True, do=[seqsum_nonneg(key)])
+
+
+@contract("dissect.cobaltstrike.utils:unpack", props=["C20", "C15", "C02", "C03", "C05", "C09", "C17", "C18"])
+def _(data: "bytes", size: "opt[int]", byteorder: "lit:'little'|'big'", signed: "lit:False|True"):
+    """unpack(data, size, byteorder, signed) is int.from_bytes of the first `size` bytes.
+    The sixteen partial bindings (u8 ... p64be) are read from the module source; each binding's
+    width and byte order are ground obligations (pyvc/ground.py)."""
+    ensures(result == int.from_bytes(data if size is None else data[:size], byteorder, signed=signed))
+    returns("int")
+
+
+@contract("dissect.cobaltstrike.utils:pack", props=["C20", "C04", "C05"])
+def _(n: "int", size: "opt[int]", byteorder: "lit:'little'|'big'", signed: "lit:False|True"):
+    requires(implies(size is not None, size >= 0))
+    raises(OverflowError, when=not fits_bytes(n, byte_width(n) if size is None else size, signed=signed))
+    ensures(fits_bytes(n, byte_width(n) if size is None else size, signed=signed))
+    ensures(result == int.to_bytes(n, byte_width(n) if size is None else size, byteorder, signed=signed))
+    returns("bytes")
+
+
+@lemma(props=["C20"])
+def pack_unpack_le(n: "int", w: "int"):
+    """unpack(pack(n, w), w) == n for every representable n (little endian, unsigned; the other three
+    byte-order / signedness combinations are the lemmas below)"""
+    requires(w >= 0, fits_bytes(n, w))
+    ensures(int.from_bytes(int.to_bytes(n, w, "little")[:w], "little") == n)
+
+
+@lemma(props=["C20"])
+def pack_unpack_be(n: "int", w: "int"):
+    requires(w >= 0, fits_bytes(n, w))
+    ensures(int.from_bytes(int.to_bytes(n, w, "big")[:w], "big") == n)
+
+
+@lemma(props=["C20"])
+def pack_unpack_le_signed(n: "int", w: "int"):
+    requires(w >= 0, fits_bytes(n, w, signed=True))
+    ensures(int.from_bytes(int.to_bytes(n, w, "little", signed=True)[:w], "little", signed=True) == n)
+
+
+@lemma(props=["C20"])
+def pack_unpack_be_signed(n: "int", w: "int"):
+    requires(w >= 0, fits_bytes(n, w, signed=True))
+    ensures(int.from_bytes(int.to_bytes(n, w, "big", signed=True)[:w], "big", signed=True) == n)
+
+
+@lemma(props=["C20"])
+def unpack_pack(b: "bytes"):
+    """pack(unpack(b), len(b)) == b"""
+    ensures(int.to_bytes(int.from_bytes(b, "little"), len(b), "little") == b)
+    ensures(int.to_bytes(int.from_bytes(b, "big"), len(b), "big") == b)
+    ensures(int.to_bytes(int.from_bytes(b, "little", signed=True), len(b), "little", signed=True) == b)
+    ensures(int.to_bytes(int.from_bytes(b, "big", signed=True), len(b), "big", signed=True) == b)
